@@ -850,6 +850,27 @@ def cfg_from_dict(d):
                dt.kind, dt.itemsize, order, d.get("is_complex", False), d.get("nsub", 1))
 
 
+CLOSINGS = ["close()", "with-block left normally", "with-block left by an exception of the caller", "close() twice"]
+
+
+def close_writer(w, how):
+    """the ways a recorder lets go of its writer"""
+    if how == "with-block left normally":
+        with w:
+            pass
+    elif how == "with-block left by an exception of the caller":
+        try:
+            with w:
+                raise KeyError("the caller's own error")
+        except KeyError:
+            pass
+    elif how == "close() twice":
+        w.close()
+        w.close()
+    else:
+        w.close()
+
+
 def replay(res, rp):
     """re-run the history of a replay file on the implementation and on the model; print both and
     the Spec; exit code 1 if they still differ from each other or from the Spec"""
@@ -870,9 +891,16 @@ def replay(res, rp):
             print("channel directory passed as:", common.PATH_FORM_NAMES[inp["directory_spelling"]], "(the same str object in every session)")
         reports, w = run_impl(cfg, ops, chdir, pform=inp.get("directory_spelling"))
         try:
-            w.close()
+            close_writer(w, inp.get("closed_by") or "close()")
         except Exception:  # noqa
             pass
+        if inp.get("closed_by"):
+            print("writer closed by:", inp["closed_by"], "; afterwards get_last_file_written() =", w.get_last_file_written(),
+                  ", get_last_dir_written() =", w.get_last_dir_written())
+            if rp.get("expected") and [os.path.abspath(x or "x").split(os.sep)[-2:] for x in (w.get_last_file_written(), )] != \
+                    [os.path.abspath(str(rp["expected"][0])).split(os.sep)[-2:]]:
+                print("expected the file of the most recent sample:", os.sep.join(str(rp["expected"][0]).split(os.sep)[-2:]))
+                bad += 1
     files = dump_files(chdir)
     out = common.run_model("writer", [encode_case(cfg, ops, detect_gaprule(res))])[0]
     mrep, mfiles = parse_model(out, len(ops))
